@@ -38,7 +38,7 @@ def run(c):
     drv = c.driver(DRIVER)
     binary = c.go_build(HARNESS)
     if binary and drv:
-        rc, out = c.go_run(binary, [f"-n={c.n(240, 2400)}"], timeout=2400)
+        rc, out = c.go_run(binary, [f"-n={c.n(200, 400)}"], timeout=2400)
         c.harness_ok(rc, out, "verif-c18")
         c.correspond(out, drv, timeout=2400)
     if c.tier == "thorough":
@@ -49,7 +49,7 @@ def run(c):
         if not binary:
             return
         for k in range(1, 6):
-            rc, out = c.go_run(binary, [f"-n={c.n(600, 2400)}", f"-seed={c.seed + 1000 * k}"], timeout=2400)
+            rc, out = c.go_run(binary, [f"-n={c.n(400, 400)}", f"-seed={c.seed + 1000 * k}"], timeout=2400)
             c.collect(out, label="")
             if [o for o in c.oracle if o["sig"] != "truncated-file-header"]:
                 return
@@ -61,17 +61,25 @@ META = {
     "technique": ("Lean 4 theorems over an executable byte-level model of putLevToBuffer / writer loop / reader "
                   "(induction over event lists, truncation points and writer schedules) + differential correspondence with the "
                   "real fsbinlog on a memory file system + direct replay/commit/damage oracle"),
-    "text": ("Kernel-checked: replaying the bytes the writer model produced delivers exactly the appended events at the "
-             "offsets Append returned, from the start and from every event boundary with the crc the writer reported there "
-             "(resume with snapshot meta); a stream cut at ANY byte offset replays exactly the events that are complete and "
-             "nothing else; a crc record is passed iff the running checksum equals the stored one; for every schedule of "
-             "appends and writer-loop iterations commit offsets are non-decreasing and never exceed the fsynced bytes. The "
-             "model is tied to the code by replaying generated histories (sessions, rotations, crc records, resumes, "
-             "truncations, bit flips) on the real package and on the compiled model and diffing every observation."),
-    "note": ("Trusted: Lean kernel, the correspondence on generated histories, gofs memory fs as the file system, crc32/md5 as "
-             "parameters. Partial: the replay/truncation theorems are proved for a single file with crc records (no rotation "
-             "inside the proved stream); rotation, multi-file scan and resume across files are covered by correspondence and "
-             "oracle only. Known finding: a last file cut inside its 36-byte ROTATE_FROM header (crash inside rotate()) makes "
-             "the whole binlog unreadable (scan error; index panic for 1-3 bytes)."),
+    "text": ("Kernel-checked, for all inputs: (replay_all) started at ANY writer state - the start of the log or a later event "
+             "boundary with the crc the writer's Commit reported there (resume with snapshot meta) - the reader loop delivers "
+             "exactly the events appended afterwards, in order, each at the offset Append returned, crc records at any interval "
+             "included, and ends at the writer's position and crc; (crc_record_checked) after consuming k bytes of ANY file "
+             "content the running checksum is upd crc0 (those k bytes), and a crc record reached there fails replay with a "
+             "checksum error iff the stored value differs - corruption detection reduced to the checksum distinguishing the two "
+             "byte strings; (commit_monotone, commit_all_synced_partial) for every schedule of appends and writer-loop "
+             "iterations commit offsets never decrease, never run ahead of the append position, and when a commit is issued no "
+             "written byte is without an fsync. The model is tied to the code by replaying generated histories (sessions, "
+             "rotations, crc records, resumes, truncations, bit flips) on the real package and on the compiled model and "
+             "diffing every observation; the direct oracle checks replay/resume equality, commit <= fsynced bytes (gofs dirty "
+             "pages), truncation and bit-flip outcomes on the real code."),
+    "note": ("Trusted: Lean kernel, the correspondence on generated histories (quick 200, thorough 400 histories incl. ~160 with "
+             "every truncation offset and every single-bit flip of the last two chunks), gofs memory fs as the file system, "
+             "crc32/md5 as parameters. Partial: replay_all is proved for appends that do not rotate (one chunk, NoRotate "
+             "hypothesis); truncate_prefix is not proved (only its step lemma for a cut stream); commit <= bytes written needs "
+             "the rotatePos invariant and is oracle-only; rotation, multi-file scan, seek and resume across chunks are covered "
+             "by correspondence and oracle only. Known finding truncated-file-header: a last chunk cut inside its 36-byte "
+             "ROTATE_FROM header (crash inside rotate()) makes the whole binlog unreadable (scan error; index panic for 1-3 "
+             "bytes); reproduced by the model (decide witnesses in Props/C18.lean)."),
     "design_ref": "DESIGN.md §6 C18",
 }
